@@ -7,6 +7,9 @@ type CorpusCase struct {
 	Name string
 	B    *Bundle
 	Pkg  string
+	// Outside: the package is outside the documented language; only the model/implementation
+	// correspondence applies to it, the contract oracle does not.
+	Outside bool
 }
 
 func str(s string) *Field        { return &Field{Kind: "scalar", Scalar: &Scalar{Kind: s}} }
@@ -72,6 +75,19 @@ func Corpus() []CorpusCase {
 		file(foo, "a", object("BarRequest", prop("x", str("string"))), object("User", prop("r", objRef("", "BarRequest")))),
 		file(foo, "b", &Element{Kind: "service", Service: &Service{Name: "Foo", Methods: []*Method{{
 			Name: "Bar", Verb: "POST", Path: "/bar", Request: []*Property{prop("fooId", str("string"))}}}}}))
+	// outside the language, accepted by the compiler: repeated / optional / required members of a oneof
+	oneofEl := func(ps ...*Property) *Element {
+		return &Element{Kind: "oneof", N: &Nested{Kind: "oneof", Name: "Ch", Props: ps}}
+	}
+	add("outside-oneof-array-member", "foo.v1", file(foo, "a", oneofEl(prop("a", &Field{Kind: "array", Item: str("string")}), prop("b", str("string")))))
+	add("outside-oneof-required-member", "foo.v1", file(foo, "a", oneofEl(&Property{Name: "a", Required: true, F: str("string")}, prop("b", str("string")))))
+	add("outside-oneof-map-member", "foo.v1", file(foo, "a", oneofEl(prop("a", &Field{Kind: "map", Item: str("string")}), prop("b", str("string")))))
+	add("outside-empty-oneof", "foo.v1", file(foo, "a", oneofEl()))
+	for i := range out {
+		if len(out[i].Name) > 8 && out[i].Name[:8] == "outside-" {
+			out[i].Outside = true
+		}
+	}
 	return out
 }
 
